@@ -89,6 +89,14 @@ func TestC18(t *testing.T) {
 		run.Eval()
 		c18Sim(t, run, k)
 	}
+	ngate := run.N(4, 40)
+	for g := 0; g < ngate; g++ {
+		desc := map[string]any{"part": "gate-storm", "g": g}
+		if !run.Mine(n+nsim+g, desc) {
+			continue
+		}
+		c18Gate(t, run, g, desc)
+	}
 	for i := 0; i < n; i++ {
 		rng := run.Rand(i)
 		sc := c18Scenario{Idx: i, Clients: 16 + rng.IntN(40), Operators: 3 + rng.IntN(4), Targets: 6 + rng.IntN(7), Duration: 2500 * time.Millisecond, ProbeIv: time.Duration(5+rng.IntN(16)) * time.Millisecond}
@@ -369,7 +377,22 @@ func c18Run(t *testing.T, run *Run, sc c18Scenario, rng *rand.Rand) {
 			}
 		}()
 	}
-	wg.Wait()
+	back := make(chan struct{})
+	go func() { wg.Wait(); close(back) }()
+	select {
+	case <-back:
+	case <-time.After(90 * time.Second):
+		// the stress ended 90s ago (every client call and command has a timeout far below that)
+		buf := make([]byte, 1<<20)
+		dump := string(buf[:runtime.Stack(buf, true)])
+		if v := classifyDump(dump); v == "deadlock" {
+			run.Violate("deadlock:during-stress", "operators or clients did not come back within 90s after the stress was called off: goroutines of the proxy are blocked on its locks", sc, strings.Split(trunc(dump, 60000), "\n"))
+			panic("deadlock in the proxy (stress): abandoning this monitor process")
+		} else {
+			run.Inconclusive("stress did not wind down within the watchdog but the dump is not a lock deadlock (%s)", v)
+		}
+		return
+	}
 	jitterOn.Store(false)
 	// ---- bounded-progress epilogue ----
 	done := make(chan string, 1)
@@ -417,6 +440,7 @@ func c18Run(t *testing.T, run *Run, sc c18Scenario, rng *rand.Rand) {
 		verdict := classifyDump(dump)
 		if verdict == "deadlock" {
 			run.Violate("deadlock", "the epilogue (list, resume, deploy, request, remove) did not complete within 60s: goroutines of the proxy are blocked on its locks and none is runnable", sc, strings.Split(trunc(dump, 60000), "\n"))
+			panic("deadlock in the proxy (epilogue): abandoning this monitor process")
 		} else {
 			run.Inconclusive("epilogue did not complete within the watchdog but the dump is not a lock deadlock (%s)", verdict)
 		}
@@ -436,10 +460,108 @@ func c18Run(t *testing.T, run *Run, sc c18Scenario, rng *rand.Rand) {
 	_ = filepath.Join
 }
 
+// c18Gate: the pause gate under fire. One service is switched between running, paused and stopped
+// by operators that never rest while clients call the router in-process (no sockets, so that the
+// gate is passed hundreds of thousands of times); list commands take the router's lock in between.
+// Bounded progress: when the storm is called off every operator and client must come back.
+func c18Gate(t *testing.T, run *Run, g int, desc any) {
+	run.Eval()
+	RestoreHTTPDefaults()
+	dir, err := os.MkdirTemp("", "vh-c18g-")
+	if err != nil {
+		run.Inconclusive("tempdir: %v", err)
+		return
+	}
+	defer os.RemoveAll(dir)
+	tgt := c18Target("gate", &atomic.Bool{})
+	defer func() { tgt.CloseClientConnections(); tgt.Close() }()
+	router := server.NewRouter(filepath.Join(dir, "state.json"))
+	o := server.TargetOptions{HealthCheckConfig: server.HealthCheckConfig{Path: "/up", Interval: 10 * time.Millisecond, Timeout: time.Second}, ResponseTimeout: 2 * time.Second}
+	so := server.ServiceOptions{Hosts: []string{"gate.example"}}
+	if err := router.DeployService("gate", []string{strings.TrimPrefix(tgt.URL, "http://")}, so, o, 5*time.Second, time.Second); err != nil {
+		run.Inconclusive("gate storm setup: %v", err)
+		return
+	}
+	ctx, cancel := context.WithTimeout(context.Background(), 2500*time.Millisecond)
+	defer cancel()
+	var wg sync.WaitGroup
+	var passes, cmds atomic.Int64
+	var statuses sync.Map
+	for op := 0; op < 3; op++ {
+		r := rand.New(rand.NewPCG(run.Seed+uint64(g), uint64(op)+91))
+		wg.Add(1)
+		go func() {
+			defer wg.Done()
+			for ctx.Err() == nil {
+				switch r.IntN(8) {
+				case 0, 1:
+					router.StopService("gate", time.Millisecond, "stopped by the storm")
+				case 2:
+					router.PauseService("gate", time.Millisecond, 2*time.Millisecond)
+				case 3, 4:
+					router.ResumeService("gate")
+				case 5:
+					router.ListActiveServices()
+				default:
+					// leave the state alone for a moment so that requests pile up against it
+					time.Sleep(time.Duration(r.IntN(300)) * time.Microsecond)
+				}
+				cmds.Add(1)
+			}
+		}()
+	}
+	for c := 0; c < 12; c++ {
+		c := c
+		wg.Add(1)
+		go func() {
+			defer wg.Done()
+			for ctx.Err() == nil {
+				path := "/"
+				if c%4 == 3 {
+					path = "/up"
+				}
+				req := httptest.NewRequest("GET", "http://gate.example"+path, nil).WithContext(ctx)
+				rec := httptest.NewRecorder()
+				router.ServeHTTP(rec, req)
+				passes.Add(1)
+				v, _ := statuses.LoadOrStore(rec.Code, &atomic.Int64{})
+				v.(*atomic.Int64).Add(1)
+			}
+		}()
+	}
+	back := make(chan struct{})
+	go func() { wg.Wait(); close(back) }()
+	select {
+	case <-back:
+	case <-time.After(90 * time.Second):
+		buf := make([]byte, 1<<20)
+		dump := string(buf[:runtime.Stack(buf, true)])
+		if v := classifyDump(dump); v == "deadlock" {
+			run.Violate("deadlock:gate-storm", "stop/pause/resume/list against requests for one service: the storm was called off 90s ago but operators or requests are still blocked on the proxy's locks", desc, strings.Split(trunc(dump, 60000), "\n"))
+			// the blocked goroutines never come back: this process cannot run further scenarios
+			panic("deadlock in the proxy (gate storm): abandoning this monitor process")
+		} else {
+			run.Inconclusive("gate storm did not wind down within the watchdog but the dump is not a lock deadlock (%s)", v)
+		}
+		return
+	}
+	router.ResumeService("gate")
+	router.RemoveService("gate")
+	run.Count("gate_storm_requests", int(passes.Load()))
+	run.Count("gate_storm_commands", int(cmds.Load()))
+	statuses.Range(func(k, v any) bool {
+		run.Count(fmt.Sprintf("gate_storm_status_%d", k.(int)), int(v.(*atomic.Int64).Load()))
+		return true
+	})
+	if passes.Load() < 1000 {
+		run.Inconclusive("gate storm: only %d requests passed", passes.Load())
+	}
+}
+
 // classifyDump: "deadlock" iff some goroutine is blocked in a sync lock under a frame of the
 // repository and no goroutine running repository code is runnable/running.
 func classifyDump(dump string) string {
-	blocked, runnable := 0, 0
+	blocked, runnable, stuck := 0, 0, 0
 	for _, g := range strings.Split(dump, "\n\n") {
 		if !strings.Contains(g, "kamal-proxy/internal/server.") {
 			continue
@@ -448,11 +570,14 @@ func classifyDump(dump string) string {
 		switch {
 		case strings.Contains(head, "sync.Mutex.Lock") || strings.Contains(head, "sync.RWMutex") || strings.Contains(head, "semacquire"):
 			blocked++
+			if strings.Contains(head, " minutes]") {
+				stuck++ // has been waiting for a lock of the proxy for at least a minute
+			}
 		case strings.Contains(head, "[running]") || strings.Contains(head, "[runnable]"):
 			runnable++
 		}
 	}
-	if blocked > 0 && runnable == 0 {
+	if blocked > 0 && (runnable == 0 || stuck > 0) {
 		return "deadlock"
 	}
 	return fmt.Sprintf("blocked=%d runnable=%d", blocked, runnable)
